@@ -76,6 +76,10 @@ pub fn run(ctx: &Ctx) -> Report {
 		}
 		total.count(&format!("{}_long_inputs", f.name()), longs.len() as u64);
 		dom.extend(longs);
+		// block-boundary and otherwise special scalars directly before each delimiter
+		if f == Family::Iri {
+			dom.extend(domains::special_scalar_texts().into_iter().filter(|t| fr.valid(Kind::RiRef, t)));
+		}
 		let shards = 64usize;
 		let r = run_shards(ctx, shards, |si| {
 			let mut r = Report::new();
